@@ -276,7 +276,8 @@ class Reifier:
         if isinstance(v, TaskRef):
             if not out:
                 self.data_with_ref = True
-            return f"(TRef ({self.rkey(norm_key_str(v.key), out)}))"
+            # on the OUTPUT side a ref is identified the way Frisky matches it to a producer: by the plain str() of its key
+            return f"(TRef ({self.rkey(str(v.key) if out else norm_key_str(v.key), out)}))"
         if isinstance(v, list):
             return "(TList " + clist(v, lambda a: self.val(a, out)) + ")"
         if isinstance(v, tuple):
@@ -656,6 +657,44 @@ def walk_case(chk, colls):
     return lit, {"roots": len(roots), "layers": len(dag), "emitted": [len(r[1]) for r in roots]}
 
 
+def directed_collections(chk, da):
+    """layers the random programs rarely reach: NumPy-integer block coordinates inside TaskRefs (diagonal / trace / vindex),
+    fused groups that read ONE source at several sites with different block maps (x - x.T, y @ y.T), on several grids"""
+    from dask_array import _materialize
+    fams = []
+    for n, c in ((4, 2), (6, 3), (6, (2, 4)), (5, (2, 2, 1)), (4, 4)):
+        def src(n=n, c=c, off=0.0):
+            return da.from_array(np.arange(float(n * n)).reshape(n, n) + off, chunks=c)
+        fams += [
+            (f"diagonal[{n},{c}]", lambda s=src: da.diagonal(s())),
+            (f"diagonal+1[{n},{c}]", lambda s=src: da.diagonal(s() + 1, 1)),
+            (f"trace[{n},{c}]", lambda s=src: da.trace(s())),
+            (f"diag[{n},{c}]", lambda s=src: da.diag(s())),
+            (f"vindex[{n},{c}]", lambda s=src, n=n: s().vindex[[0, n - 1, 1], [1, 0, n - 1]]),
+            (f"vindex-of-sum[{n},{c}]", lambda s=src, n=n: (s() * 2).vindex[[0, n - 1], [n - 1, 0]] + 1),
+            (f"x-x.T[{n},{c}]", lambda s=src: (lambda x: x - x.T)(s())),
+            (f"(x+1)*x.T[{n},{c}]", lambda s=src: (lambda x: (x + 1) * x.T)(s())),
+            (f"x@x.T[{n},{c}]", lambda s=src: (lambda x: x @ x.T)(s())),
+            (f"x+x[::-1][{n},{c}]", lambda s=src: (lambda x: x + x[::-1])(s())),
+            (f"x*x[{n},{c}]", lambda s=src: (lambda x: x * x + x.T.T)(s())),
+            (f"tril[{n},{c}]", lambda s=src: da.tril(s())),
+            (f"x.T.sum(0)-x.sum(1)[{n},{c}]", lambda s=src: (lambda x: x.T.sum(axis=0) - x.sum(axis=1))(s())),
+        ]
+    for name, mk in fams:
+        _materialize._LOWER_CACHE.clear()
+        try:
+            with warnings.catch_warnings():
+                warnings.simplefilter("ignore")
+                x = mk()
+                x.compute(scheduler="sync")
+        except Exception:  # noqa: BLE001
+            chk.count("directed:skipped-raises")
+            continue
+        chk.case(("directed", name), nontrivial=True)
+        chk.count("directed-collection")
+        check_collection(chk, x, {"program": name}, name.split("[")[0])
+
+
 def run(chk: Check):
     import dask_array as da
     from dask_array import _materialize
@@ -711,6 +750,7 @@ def run(chk: Check):
         chk.case(("corpus", name), nontrivial=True)
         chk.count("corpus-collection")
         check_collection(chk, x, {"program": name}, "neg")
+    directed_collections(chk, da)
     n = 4000 if chk.tier == "thorough" else 250
     for it in range(n):
         _materialize._LOWER_CACHE.clear()
